@@ -89,6 +89,7 @@ def main(prop, tier):
     states = set()
     other_props = {}
     crashes = [0]
+    truncated = [0]
 
     def tasks():
         for h in _corpus(prop):
@@ -117,6 +118,8 @@ def main(prop, tier):
                                 "history_hash": r["hash"], "result": "no violation" if not r["violations"] else str(r["violations"][0][:3])})
         for note, c in r.get("known_hits", {}).items():
             known_hits[note] = known_hits.get(note, 0) + c
+        if r.get("truncated_after_tolerated"):
+            truncated[0] += 1
         for v in r["violations"]:
             if v[0] == "ENGINE":
                 rep.engine_errors.append(v[2])
@@ -160,6 +163,7 @@ def main(prop, tier):
         "probes": {k: v for k, v in agg.items() if k not in ("ops", "exceptions_expected")},
         "families_enabled_runs": fam_count,
         "distinct_model_end_states": len(states),
+        "runs_cut_short_after_a_tolerated_recorded_deviation_left_the_generators_contract": truncated[0],
         "raw_violations_by_class": {"%s/%s" % k: v for k, v in raw.items()},
         "violations_of_other_properties_seen_and_left_to_their_own_check": other_props,
         "seeds_per_hour": round(rep.evaluations / wall * 3600.0, 1),
@@ -170,7 +174,7 @@ def main(prop, tier):
                        "stub": ["none"]},
     })
     rep.assumptions = [
-        "own_host_pointer and detach() are not generated; zero-length slices of pool reservations are not generated",
+        "own_host_pointer and detach() are not generated; a zero-length view of a pool reservation may count as nothing or as its aligned block in reserved()",
         "fresh device memory is indeterminate: bytes are compared only once written",
         "pool placement (offsets, pool size) is read from the implementation and checked against invariants, never predicted",
         "overlapping memcpy ranges and kernels with partially overlapping arguments are not generated (undefined behaviour)",
@@ -183,7 +187,8 @@ def replay(prop, path):
     with open(path) as f:
         rp = json.load(f)
     ops = [l.split() for l in rp["history"]]
-    r = hcheck.check_history(ops)
+    tol = frozenset(k for p in TITLES for k in common.load_known(p) if "|missing-exception|" in k)
+    r = hcheck.check_history(ops, tolerate=tol)
     vs = [v for v in r["violations"] if v[0] == prop]
     print("replay: %s hash=%s (recorded %s)" % ([v[:3] for v in r["violations"]], r["hash"], rp.get("expected_hash")))
     if vs and vs[0][1] == rp["class"]:
